@@ -306,6 +306,59 @@ def _strip_elem(t, elem):
     return t == elem
 
 
+def built_local(fn, pv, op, bb, idx, depth=0):
+    """the local Vec an operand's value was built in (`let mut v = Vec::new(); v.push(..); ..; Ok(v)` inside an inlined helper,
+    taken with `?` and moved on), following moves, `Ok(..)` / `?`; None if the value is not such a local"""
+    from .facts import callee_path as _cp
+    if op["k"] not in ("copy", "move") or op["place"]["p"] or depth > 10:
+        return None
+    l = op["place"]["l"]
+    if pv._defs is None:
+        pv._collect_defs()
+    ds = [d for d in pv.reaching(l, bb, idx) if d != -1]
+    if len(ds) != 1:
+        return None
+    _, dbb, didx, payload = pv._defs[ds[0]]
+    if didx == "term":
+        if _cp(payload) in ("alloc::vec::Vec::<T>::new", "alloc::vec::Vec::<T>::with_capacity",
+                            "alloc::collections::btree::set::BTreeSet::<T>::new"):
+            return l
+        return None
+    if payload["k"] == "use" and payload["op"]["k"] in ("copy", "move"):
+        pl = payload["op"]["place"]
+        if not pl["p"]:
+            return built_local(fn, pv, payload["op"], dbb, didx, depth + 1)
+        if len(pl["p"]) == 2 and pl["p"][0][0] == "downcast" and pl["p"][0][1] == "Continue" and pl["p"][1][0] == "field":
+            bs = [d for d in pv.reaching(pl["l"], dbb, didx) if d != -1]
+            if len(bs) == 1:
+                _, bbb, bidx, bt = pv._defs[bs[0]]
+                if bidx == "term" and _cp(bt) == "core::ops::try_trait::Try::branch" and bt["args"][0]["k"] in ("copy", "move"):
+                    oks = []
+
+                    def collect(rl, rb, ri, dep=0):
+                        if dep > 8:
+                            return False
+                        for r in pv.reaching(rl, rb, ri):
+                            if r == -1:
+                                return False
+                            _, rbb, ridx, rp = pv._defs[r]
+                            if ridx != "term" and rp["k"] == "aggr" and rp.get("variant") == "Ok" and rp["ops"]:
+                                oks.append((rp["ops"][0], rbb, ridx))
+                            elif ridx != "term" and rp["k"] == "aggr" and rp.get("variant") == "Err":
+                                continue
+                            elif ridx == "term" and _cp(rp) in ("core::ops::try_trait::FromResidual::from_residual", "util::cbor_type_error"):
+                                continue
+                            elif ridx != "term" and rp["k"] == "use" and rp["op"]["k"] in ("copy", "move") and not rp["op"]["place"]["p"]:
+                                if not collect(rp["op"]["place"]["l"], rbb, ridx, dep + 1):
+                                    return False
+                            else:
+                                return False
+                        return True
+                    if collect(bt["args"][0]["place"]["l"], bbb, "term") and len(oks) == 1:
+                        return built_local(fn, pv, oks[0][0], oks[0][1], oks[0][2], depth + 1)
+    return None
+
+
 def array_of_decoded(prog, fn, pv, vl, agg, name):
     """field `name` of the decoded value is `src.try_as_array()?` with every element, in order, handed to one decoder whose
     failure fails the whole decode - `src.try_as_array_then_convert(D)?` or the loop / iterator chain it stands for.
